@@ -9,6 +9,16 @@ CHECKS = {
    text='Generic theorem C01_maximal_munch (Coq, closed under the global context): for every DFA d and state graph g related by a valid certificate (dfa_ok, sim_ok) and every input and start offset, the reference semantics of the generated code records exactly the longest non-empty match and its unique highest-priority leaf. The certificate is re-evaluated on every run on the DFA and graph captured from the real Graph::new for every accepted definition of the repo corpus, the curated corpus and a seeded random corpus (kernel vm_compute + instantiated theorem for repo+curated, extracted checker for all). The compiled lexers (tail-call and state-machine generators) are run against the extracted executor model and the DFA-level specification on graph-driven probes.',
    design='DESIGN.md sections 5, 7 (C01)',
    note='Trusted: Coq kernel + vm_compute; capture hook printer and Python term printer (translator); extraction + OCaml driver; harness. regex-automata determinisation is modelled as data (the captured DFA), regex-level reading relies on it. Inputs: all (theorem). Definitions: those whose certificate evaluates to true; evaluated on the corpora only.'),
+ 'C02': dict(
+   technique='Coq proof (induction over the input; soundness of liveness-rank certificates) + kernel-checked per-definition certificates + differential correspondence',
+   text='Theorems C02_error_span, C02_stop_exact, C02_lv_is_live (closed): under certificates dfa_ok, sim_ok, exact_ok, an attempt with no match stops exactly at the first byte (EOI counting as one) after which the text read cannot be extended to a match (FirstDead, stated with the inductive Live), next() yields one Err with span start..fb(max(start+v,start+1)) and the next attempt starts there; in every attempt a byte is consumed only if the state reached is live or confirms a match and the attempt stops only at a non-live successor (Stops). Certificates re-evaluated per run on captured DFA+graph; compiled lexers compared with the executor model and the DFA-level specification on error spans.',
+   design='DESIGN.md sections 5, 7 (C02)',
+   note='As C01. exact_ok additionally trusts nothing: liveness ranks are untrusted hints validated by rank_ok/classify_ok. Error values (Default / error callback) are C13. find_boundary is modelled (fb_str) and tied by K2 on multi-byte inputs.'),
+ 'C03': dict(
+   technique='Coq proof (strong induction on remaining input) of termination, progress and tiling + certificates + differential correspondence',
+   text='Theorems C03_tiling, C03_none_absorbing, C03_fb_str_ok (closed): under the certificates, iterating next() never gets stuck or runs out of fuel, yields finitely many items then None with span len..len forever, and items plus skipped regions are non-empty, contiguous from 0 to the input length, for every callback oracle that bumps in range. "No empty-matching definition is accepted" is decided per definition by dfa_ok (no unit successor of the start state is a match state) on every accepted definition of the corpora, including random definitions with nullable patterns.',
+   design='DESIGN.md sections 5, 7 (C03)',
+   note='As C01/C02. The iterator is additionally called three more times after None in K2.'),
 }
 
 def main():
